@@ -42,8 +42,8 @@ def model(c):
         return
     jobs = []
     for name, cs in (("lease-faults1", dict(MaxFaults=1, MaxTenures=2, FaultKinds='{"lost"}', WithDeath=True)),
-                     ("lease-faults2", dict(MaxFaults=2 if not c.quick() else 1, MaxTenures=2 if not c.quick() else 1,
-                                            FaultKinds='{"lost"}', WithDeath=False))):
+                     ("lease-faults3", dict(MaxFaults=3, MaxTenures=2, FaultKinds='{"lost"}', WithDeath=False)),
+                     ("lease-3tenures", dict(MaxFaults=1, MaxTenures=3, FaultKinds='{"lost"}', WithDeath=False))):
         def job(name=name, cs=cs):
             cfg = c.write_cfg("lock", name, constants=cs, invariants=["NeverExpiresWhileHeld", "DeadRecordGone", "RenewalDiesOut", "TypeOK"],
                               view="View")
@@ -52,7 +52,7 @@ def model(c):
 
     def replylost():
         cfg = c.write_cfg("lock", "lease-replylost", constants=dict(MaxFaults=1, MaxTenures=1, FaultKinds='{"replylost"}', WithDeath=False),
-                          invariants=["NeverExpiresWhileHeld"], view="View")
+                          invariants=["NeverExpiresStrict"], view="View")
         r = c.tlc("lock", "KvLease", cfg, workers=4, timeout=600, label="lease-replylost", expect_ok=False, count=False)
         c.extra["reply_lost_model"] = ("TLC finds the expiry under a live holder after a reply-lost renewal" if not r["ok"]
                                        else "no counterexample (unexpected)")
